@@ -183,6 +183,61 @@ def job_history(name):
     if n == 0: res.append(ob(tag + '/pairs', 'broken', detail='no feasible pair'))
     return res
 
+EPS = RV(2.220446049250313e-16); FPMIN_R = RV(FPMIN); BIG_R = RV(1.0 / FPMIN)
+def job_loop_step(kind):
+    """inductive step over the series / continued-fraction loop: the loop-carried state at the loop header is replaced by an ARBITRARY state satisfying the index invariant, one real loop body is executed;
+       leaving the loop happens only through the convergence test, the value returned is prefactor x (the state advanced by one textbook step), and the back edge carries exactly that advanced state.
+       Together with the K = 1 path from the entry (initial state) this covers every number of iterations."""
+    res = []; tag = kind + '/loop-step'; gln, gst = gln_term(); fresh = {}
+    def handler(it, f, blk, regs, st):
+        m = {}
+        for I in f.blocks[blk]:
+            if I.op != 'phi': continue
+            base = I.dest.lstrip('%').split('.')[0]
+            if str(I.ty).startswith('i') and 'double' not in str(I.ty): v = z3.Int('h_' + base); st.pc += [v >= 1, v <= 1000000]
+            else: v = z3.Real('h_' + base)
+            regs[I.dest] = v; m[base] = v; fresh[base] = (I.dest, v)
+        st.events.append(('havoc', m))
+    it = Interp(G['m'], limits=Limits(feas_ms=2000, max_paths=400, max_seconds=120))
+    need = ('sum', 'ap', 'del') if kind == 'GammaPser' else ('i', 'h', 'd', 'c', 'b')
+    fn = [n for n in G['m'].funcs if n.startswith('@_ZN10libphysica%d%sEdd' % (len(kind), kind))]
+    if len(fn) != 1: return [ob(tag + '/function', 'broken', detail='%s: %s' % (kind, fn))]
+    # the loop: the header (target of a back edge) whose loop-carried registers carry the recurrence state, wherever the compiler put the test
+    heads = [b for b in loop_headers(G['m'].funcs[fn[0]]) if set(need) <= set(I.dest.lstrip('%').split('.')[0] for I in G['m'].funcs[fn[0]].blocks[b] if I.op == 'phi')]
+    if len(heads) != 1: return [ob(tag + '/loop-state', 'undecided', key='C06/%s/loop-step' % kind, detail='no unique loop header carrying %s: %s' % (need, heads))]
+    it.havoc[(fn[0], heads[0])] = handler
+    st = it.new_state(); st, _ = it.run_global_ctors(st, 'Special_Functions'); st.pc += [X > 0, A > 0]
+    ps = it.execute('@verif_sf', [20 if kind == 'GammaQcf' else 21, X, A, 0.0, 0, 0], st)
+    if not all(k in fresh for k in need): return [ob(tag + '/loop-state', 'undecided', key='C06/%s/loop-step' % kind, detail='loop-carried registers found: %s (expected %s)' % (sorted(fresh), need))]
+    h = {k: fresh[k][1] for k in fresh}
+    if kind == 'GammaPser':
+        inv = [h['ap'] >= A]; dn = h['del'] * X / (h['ap'] + 1); sn = h['sum'] + dn
+        converged = Abs(dn) <= Abs(sn) * EPS; value = sn * pref(gln); nxt = {'sum': sn, 'ap': h['ap'] + 1, 'del': dn}; odiv = [h['ap'] + 1 != 0]
+        converged0 = Abs(h['del']) <= Abs(h['sum']) * EPS; value0 = h['sum'] * pref(gln)      # a loop that tests before the body leaves with the state it arrived with
+    else:
+        iR = z3.ToReal(h['i']); inv = [h['b'] == X + 1 - A + 2 * (iR - 1)]; an = -iR * (iR - A); bn = h['b'] + 2
+        dq = an * h['d'] + bn; cq = bn + an / h['c']
+        dnew = z3.If(Abs(dq) < FPMIN_R, BIG_R, 1 / dq); cnew = z3.If(Abs(cq) < FPMIN_R, FPMIN_R, cq); dl = dnew * cnew; hn = h['h'] * dl
+        converged = Abs(dl - 1) <= EPS; value = hn * pref(gln); nxt = {'i': h['i'] + 1, 'h': hn, 'd': dnew, 'c': cnew, 'b': bn}; odiv = [h['c'] != 0, dq != 0]
+        converged0 = z3.BoolVal(False); value0 = h['h'] * pref(gln)      # the factor del of the arriving state is not loop-carried in the rotated form: only the advanced state can be certified
+    mv = dict({'x': X, 'a': A, 'op': 20 if kind == 'GammaQcf' else 21, 'loop_step': kind}, **{'h_' + k: v for k, v in h.items()}); nexit = nback = 0
+    for pi, p in enumerate(ps):
+        hyp = p.st.pc + inv + odiv
+        if p.end is None:
+            nexit += 1
+            ha = hyp + alg_assumptions(p.st) + alg_assumptions(gst)
+            res.append(prove('%s/leaves-only-with-a-converged-state-and-returns-it[%d]' % (tag, pi), ha, z3.Or(z3.And(converged, toR(p.ret) == value), z3.And(converged0, toR(p.ret) == value0)), 60000, mv, key='C06/%s/loop-exit' % kind, tactic='nra-uf', sample=(nexit == 1)))
+        elif p.end.kind == 'backedge':
+            nback += 1; be = [e for e in p.st.events if e[0] == 'backedge'][-1][2]
+            eqs = [toR(be[fresh[k][0]]) == toR(nxt[k]) for k in need]
+            res.append(prove('%s/back-edge-carries-advanced-state[%d]' % (tag, pi), hyp + alg_assumptions(p.st), z3.And(*eqs), 60000, mv, key='C06/%s/loop-recurrence' % kind, tactic='nra-uf'))
+            extra = [k for k in fresh if k not in need]
+            if extra: res.append(ob('%s/no-further-loop-state[%d]' % (tag, pi), 'undecided', key='C06/%s/loop-state' % kind, detail='additional loop-carried registers %s are not part of the textbook recurrence' % extra))
+        elif p.end.kind not in ('cutoff', 'exit'):
+            res.append(prove('%s/no-%s[%d]' % (tag, p.end.kind, pi), hyp, z3.BoolVal(False), 20000, mv, key='C06/%s/%s' % (kind, p.end.kind), detail=str(p.end)))
+    res.append(ob(tag + '/coverage', 'discharged' if nexit and nback else 'broken', key='C06/coverage', detail='%d leaving, %d back-edge paths from the arbitrary loop state' % (nexit, nback)))
+    return res
+
 def job_guards():
     res = []
     cases = [('GammaQ(x<0)', 16, [X < 0, A > 0], (X, A)), ('GammaQ(a<=0)', 16, [X >= 0, A <= 0], (X, A)), ('GammaP(a<=0)', 17, [X >= 0, A <= 0], (X, A)), ('GammaLn(x<=0)', 12, [X <= 0], (X,)), ('Gamma(x<=0)', 13, [X <= 0], (X,)), ('Inv_GammaP(a<=0)', 18, [A <= 0], (X, A))]
@@ -215,7 +270,7 @@ def job_factorial(L):
 
 def jobs(ctx):
     module(ctx); b = BOUNDS[ctx.tier]; G['fact_n'] = b['factorial_n']
-    J = [(job_qcf, (K,)) for K in b['K_cf']] + [(job_pser, (K,)) for K in b['K_series']] + [(job_dispatch, ()), (job_guards, ())] + [(job_history, (n,)) for n in HIST] + [(job_factorial, (L,)) for L in range(1, b['factorial_table'] + 1)]
+    J = [(job_qcf, (K,)) for K in b['K_cf']] + [(job_pser, (K,)) for K in b['K_series']] + [(job_dispatch, ()), (job_guards, ())] + [(job_history, (n,)) for n in HIST] + [(job_loop_step, (k,)) for k in ('GammaPser', 'GammaQcf')] + [(job_factorial, (L,)) for L in range(1, b['factorial_table'] + 1)]
     return J
 
 def validate(ctx):
@@ -239,6 +294,17 @@ def replay(ctx, o):
         x0, a0, x, a = q2f(m['x0']), q2f(m['a0']), q2f(m['x']), q2f(m['a'])
         r2 = nat.call(native(ctx), 'verif_sf_seq', [('i32', m['op']), x0, a0, x, a]); r1 = nsf(ctx, m['op'], x, a)
         return (r1['status'] == 'ok' and r2['status'] == 'ok' and r1['ret'] != r2['ret']), 'native op %d at (%r,%r): %r fresh, %r after a call at (%r,%r)' % (m['op'], x, a, r1.get('ret', r1['status']), r2.get('ret', r2['status']), x0, a0)
+    if '/loop-' in key:
+        # the loop state of the model is arbitrary (inductive step), not an input; the native confirmation is the kernel against scipy's regularised incomplete gamma functions where many iterations are needed
+        from scipy.special import gammainc, gammaincc
+        kind = m.get('loop_step', 'GammaPser'); worst = (0.0, None)
+        for a in (0.5, 1.0, 2.0, 5.0, 10.0, 20.0, 40.0, 60.0, 80.0, 100.0):
+            for fx in ((0.2, 0.5, 0.8, 1.0, 1.0 + 0.9 / a) if kind == 'GammaPser' else (1.0 + 1.1 / a, 1.05 + 1.0 / a, 1.2 + 1.0 / a, 1.5 + 1.0 / a, 2.0 + 1.0 / a, 5.0)):
+                x = fx * a; r = nsf(ctx, 21 if kind == 'GammaPser' else 20, x, a)
+                if r['status'] != 'ok': return True, 'native %s(%r,%r): %s' % (kind, x, a, r['status'])
+                ref = float(gammainc(a, x) if kind == 'GammaPser' else gammaincc(a, x)); e = abs(r['ret'] - ref)
+                if e > worst[0]: worst = (e, (x, a, r['ret'], ref))
+        return worst[0] > 1e-9, 'native %s against scipy over a grid with a <= 100: worst deviation %.3g at (x, a, value, reference) = %s' % (kind, worst[0], worst[1])
     if key == 'C06/factorial/memo-table':
         r = nsf(ctx, 10, i=m['n']); return r.get('ret') != float(math.factorial(m['n'])), 'native Factorial(%d) = %s' % (m['n'], r.get('ret'))
     if 'x' not in m: return False, 'no model'
